@@ -187,6 +187,41 @@ def c17(tier):
                 note="memoryadapter.rs + adapter.rs (impl Adapter for DynAdapter) from MIR; reference model in the harness")
 
 
+def c18(tier):
+    base = dict(S2)
+    jobs = [Job("h_c18::independent", (3, 1, 0), dict(base, nd_budget=1), budget_s=3000, validate=20, native_repeats=3),
+            Job("h_c18::independent", (3, 0, 0), dict(base, nd_budget=1), budget_s=3000, validate=20, native_repeats=3)]
+    if tier != "quick":
+        jobs += [Job("h_c18::independent", (3, 1, 1), dict(base, nd_budget=1), budget_s=6000, validate=20, native_repeats=3),
+                 Job("h_c18::independent", (2, 1, 0), dict(base, nd_budget=2), budget_s=6000, validate=20, native_repeats=3)]
+    jobs += [Job("h_tree::tree_rule", (2, 6, 2), {}, budget_s=1500, validate=20)]
+    return dict(jobs=jobs, bounds={"history": "commit, commit (second document among k orders, optionally staged-discarded-restaged), concurrent commit on a second replica, exchange, reopen",
+                                   "compared": "a run with canonical orders and default caches vs a run in which at most nd_budget iteration events (hash-table iterations, visits of the sequentialised worker pool) "
+                                               "use the reverse order, the storage lists in reverse order, and both cache capacities are a symbolic value in 1..3",
+                                   "tree level": "validate() under all hash-iteration orders for n <= 2 records (job shared with C05)",
+                                   "jobs [k, reversed listing, symbolic values] / nd_budget": [[list(j.params), j.opts.get("nd_budget")] for j in jobs if j.harness.startswith("h_c18")]},
+                assumptions=[a for a in S2_ASSUME if "canonical order" not in a] + [
+                    "bounded deviation: only schedules with at most nd_budget non-canonical iteration events are explored; the deviation is forward vs reverse order",
+                    "worker-pool sizes 1..16 and real parallel schedules are not applicable to this technique (sequential executor)",
+                    "block and pack identifiers are excluded from the comparison (block bytes may legitimately depend on hash order)"],
+                note="whole melda.rs / datastorage.rs / revisiontree.rs operation set from MIR")
+
+
+def c01(tier):
+    jobs = tree_jobs(tier)[:4]
+    conv = [(3, 2), (3, 3)] if tier == "quick" else [(3, 2), (3, 3), (3, 4), (6, 3)]
+    for c in conv:
+        jobs.append(Job("h_c18::converge", c, dict(S2), budget_s=6000, validate=30))
+    jobs.append(Job("h_c02::delivery", (0, 6, 0), dict(S2), budget_s=4000, validate=20))
+    return dict(jobs=jobs, bounds={"tree level": TREE_BOUNDS,
+                                   "melda level [k orders, operations]": [list(c) for c in conv],
+                                   "operations": "symbolic sequence over {a.update, b.update, a.commit, b.commit, a.pull(b), b.pull(a), a.unstage} after a shared base; then unstage, exchange until nothing new, "
+                                                 "compare a, b, a replica fed by plain file copy in reverse listing order with refreshes at symbolic points, and a replica opened by one reload",
+                                   "file-copy route": "all delivery orders of a 2-commit history (job shared with C02)"},
+                assumptions=TREE_ASSUME + S2_ASSUME + ["two writers; time travel inside the history is covered by C14, resolutions by C07"],
+                note="revisiontree.rs / revision.rs + melda.rs meld / refresh / reload / apply_delta / commit from MIR")
+
+
 def c12(tier):
     combos = [(10, 0), (2, 1)] if tier == "quick" else [(10, 0), (2, 1), (5, 1)]
     jobs = [Job("h_c12::maintenance", c, dict(S2), budget_s=3000, validate=30) for c in combos]
@@ -239,4 +274,4 @@ def c10(tier):
                 note="melda.rs reload / fetch_raw_delta / load_raw_delta / check_delta, datastorage.rs try_load_pack / read_raw_value from MIR")
 
 
-PROPS = {"C02": c02, "C11": c11, "C17": c17, "C09": c09, "C04": c04, "C12": c12, "C13": c13, "C14": c14, "C07": c07, "C10": c10, "C08": c08, "C03": c03, "C06": c06, "C16": c16, "C19": c19, "C05": c05, "C15": c15}
+PROPS = {"C01": c01, "C18": c18, "C02": c02, "C11": c11, "C17": c17, "C09": c09, "C04": c04, "C12": c12, "C13": c13, "C14": c14, "C07": c07, "C10": c10, "C08": c08, "C03": c03, "C06": c06, "C16": c16, "C19": c19, "C05": c05, "C15": c15}
